@@ -332,7 +332,7 @@ func exploreItem(scn *Scenario, bound int, prefix []int, budget int, deadline ti
 			st.Viols = append(st.Viols, v)
 		}
 		pre := 0
-		var kids [][]int
+		var kids, envKids [][]int
 		useHB := scn.HB && !noHB
 		if useHB && (hbCache.scn != scn || hbCache.bound != bound || hbCache.m == nil) {
 			hbCache.scn, hbCache.bound, hbCache.m = scn, bound, map[[2]uint64]int16{}
@@ -364,15 +364,22 @@ func exploreItem(scn *Scenario, bound int, prefix []int, budget int, deadline ti
 						np[j] = res.Choices[j].Pick
 					}
 					np[i] = alt
-					kids = append(kids, np)
+					if alt < 64 && c.EnvMask&(1<<uint(alt)) != 0 {
+						envKids = append(envKids, np)
+					} else {
+						kids = append(kids, np)
+					}
 				}
 			}
 			if c.Preempted {
 				pre++
 			}
 		}
-		// push so that the deepest alternative is explored first (classic DFS order)
+		// push so that the deepest alternative is explored first (classic DFS order); alternatives of
+		// environment choices (faults, third parties, transport behaviour) go on top: under a cap they are
+		// worth more than one more permutation of the same environment
 		stack = append(stack, kids...)
+		stack = append(stack, envKids...)
 	}
 	return st
 }
